@@ -1,0 +1,37 @@
+//go:build verif
+
+package signingalgorithm
+
+// Contracts for govc (comment-only; compiled only with -tags verif).
+// sigValid(key, msg, sig): sig is a valid signature of msg under the public
+// key object `key` (uninterpreted; unforgeability is a stated assumption).
+
+//@ uf sigValid(crypto.PublicKey, bytes, bytes) bool
+//@ ghost vkey(Verifier) crypto.PublicKey
+//@ derive vkey(*ecdsaVerifier) = iface(this.pubKey)
+
+//@ iface github.com/WICG/webpackage/go/internal/signingalgorithm.Verifier.Verify
+//@   params (v, msg, sig)
+//@   returns (ok, err)
+//@   ensures ok ==> err == nil && sigValid(vkey(v), bytes(msg), bytes(sig))
+//@   assigns nothing
+
+// The ECDSA verifier: accepts only a signature that is exactly one ASN.1
+// value (no trailing bytes) and verifies under the stored key over the hash
+// of the whole message.
+//@ func (*ecdsaVerifier).Verify
+//@   props C01 C06
+//@   returns (ok, err)
+//@   requires e.pubKey != nil
+//@   ensures[no-trailing-data] ok ==> err == nil && asn1RestLen(bytes(sig)) == 0
+//@   assigns nothing
+
+//@ def ecKeyWellFormed(k crypto.PublicKey) bool = typeis(k, *ecdsa.PublicKey) ==> (unboxed(k, *ecdsa.PublicKey) != nil && unboxed(k, *ecdsa.PublicKey).Curve != nil)
+
+//@ func VerifierForPublicKey
+//@   props C01 C06
+//@   returns (v, err)
+//@   requires ecKeyWellFormed(k)
+//@   ensures err == nil ==> v != nil && vkey(v) == k
+//@   ensures err != nil ==> v == nil
+//@   assigns nothing
